@@ -92,9 +92,13 @@ type SrvScenario struct {
 	ViaChan    bool         `json:"via_chan,omitempty"`
 	PeriodicS  int          `json:"periodic_s,omitempty"`  // real PeriodicDBReload with this interval (needs ViaChan)
 	StatsEvery int          `json:"stats_every,omitempty"` // a stats reporter calling ReportBackendStats every N ms
-	Tape       []uint8      `json:"tape"`
-	TapeSeed   uint64       `json:"tape_seed"`
-	Calm       int          `json:"calm"`
+	// Signals are partial-reload signals sent through ReloadChan by a task of their own, the way
+	// Server.ReloadDB (SIGHUP) does: each after the given pause in ms, whatever the operator is doing
+	// (needs ViaChan)
+	Signals  []int   `json:"signals,omitempty"`
+	Tape     []uint8 `json:"tape"`
+	TapeSeed uint64  `json:"tape_seed"`
+	Calm     int     `json:"calm"`
 }
 
 // QRec is the record of one query.
@@ -362,6 +366,25 @@ func runSrv(t *testing.T, sc *SrvScenario, keep bool, res *core.Result, hooks *s
 		if sc.PeriodicS > 0 && sc.ViaChan {
 			s.Go("periodic", true, func() { fb.PeriodicDBReload(sc.PeriodicS) })
 		}
+		quit := make(chan struct{})
+		if len(sc.Signals) > 0 && sc.ViaChan {
+			s.Go("signaller", true, func() {
+				for _, ms := range sc.Signals {
+					if ms > 0 {
+						s.Sleep(time.Duration(ms) * time.Millisecond)
+					} else {
+						s.Y("signaller.next")
+					}
+					select {
+					case fb.ReloadChan <- *dnsserver.NewPartialReloadSignal():
+						res.Fault("async-reload-signal")
+					case <-quit: // nobody receives once the server is closed
+						return
+					}
+					s.Y("signaller.sent")
+				}
+			})
+		}
 		stop := false
 		if sc.StatsEvery > 0 {
 			s.Go("statsreporter", true, func() {
@@ -554,6 +577,7 @@ func runSrv(t *testing.T, sc *SrvScenario, keep bool, res *core.Result, hooks *s
 		}
 		// leave the bubble cleanly: stop everything the server started
 		stop = true
+		close(quit)
 		s.Shutdown()
 		s.Drain(2, time.Second)
 		allDone := true
@@ -598,6 +622,7 @@ type srvDrawOpts struct {
 	jumps      bool
 	closeOp    bool
 	periodic   bool
+	signals    bool
 	stats      bool
 	ecs        bool
 	badvers    bool
@@ -671,6 +696,10 @@ func drawSrv(rt *rapid.T, o srvDrawOpts) SrvScenario {
 		sc.ViaChan = true
 		sc.PeriodicS = rapid.SampledFrom([]int{1, 2, 7}).Draw(rt, "periodic_s")
 	}
+	if o.signals && rapid.IntRange(0, 1).Draw(rt, "signals") == 1 {
+		sc.ViaChan = true
+		sc.Signals = rapid.SliceOfN(rapid.SampledFrom([]int{0, 0, 1, 7, 31, 59, 211, 997}), 1, 5).Draw(rt, "signal_pauses")
+	}
 	if o.stats && rapid.IntRange(0, 2).Draw(rt, "stats") == 2 {
 		sc.StatsEvery = rapid.SampledFrom([]int{13, 47, 103}).Draw(rt, "stats_every")
 	}
@@ -693,5 +722,5 @@ func summarySrv(sc SrvScenario) interface{} {
 		cl = append(cl, strings.Join(s, " "))
 	}
 	return map[string]interface{}{"backend": sc.Backend, "cache": sc.Cache, "lru": sc.LRUSize, "operator": ops, "clients": cl,
-		"via_chan": sc.ViaChan, "periodic_s": sc.PeriodicS, "tape_len": len(sc.Tape)}
+		"via_chan": sc.ViaChan, "periodic_s": sc.PeriodicS, "async_signals": len(sc.Signals), "tape_len": len(sc.Tape)}
 }
